@@ -341,6 +341,45 @@ fn flock_threads_of(pid: u32) -> usize {
 
 static DIR_COUNTER: AtomicU64 = AtomicU64::new(0);
 
+/// process groups of the children of the current case; a watchdog kills them if the case hangs (which only a
+/// broken protocol can cause, e.g. a lock that is never released)
+static CHILD_GROUPS: Mutex<Vec<u32>> = Mutex::new(Vec::new());
+static WATCHDOG_KILLS: AtomicU64 = AtomicU64::new(0);
+
+struct Watchdog {
+    done: Arc<AtomicBool>,
+}
+
+impl Watchdog {
+    fn start(limit: Duration) -> Watchdog {
+        CHILD_GROUPS.lock().unwrap().clear();
+        let done = Arc::new(AtomicBool::new(false));
+        let d2 = done.clone();
+        std::thread::spawn(move || {
+            let t = Instant::now();
+            while !d2.load(Ordering::SeqCst) {
+                if t.elapsed() > limit {
+                    for pg in CHILD_GROUPS.lock().unwrap().iter() {
+                        unsafe {
+                            libc::kill(-(*pg as i32), libc::SIGKILL);
+                        }
+                    }
+                    WATCHDOG_KILLS.fetch_add(1, Ordering::SeqCst);
+                    return;
+                }
+                std::thread::sleep(Duration::from_millis(20));
+            }
+        });
+        Watchdog { done }
+    }
+}
+
+impl Drop for Watchdog {
+    fn drop(&mut self) {
+        self.done.store(true, Ordering::SeqCst);
+    }
+}
+
 fn work_dir() -> PathBuf {
     let root = std::env::var("VERIF_ROOT").unwrap_or_else(|_| {
         // harness/ is the cwd of a manual run
@@ -718,7 +757,9 @@ fn spawn_kid(sh: &Arc<ShP>, c: usize, id: u64, mode: &str, strace: Option<Vec<St
         .stdin(Stdio::piped())
         .stdout(Stdio::piped())
         .stderr(Stdio::null());
+    std::os::unix::process::CommandExt::process_group(&mut cmd, 0);
     let mut child = cmd.spawn().expect("spawn creator child");
+    CHILD_GROUPS.lock().unwrap().push(child.id());
     let stdin = Arc::new(Mutex::new(child.stdin.take().unwrap()));
     let stdout = child.stdout.take().unwrap();
     let (sh2, stdin2) = (sh.clone(), stdin.clone());
@@ -896,22 +937,24 @@ fn solo_child(dest: &Path, seed: u64, id: u64, chunks: usize, fate: &str, trace_
                 .arg("-o")
                 .arg(out)
                 .arg("-e")
-                .arg("trace=openat,flock,statx,newfstatat,rename,renameat,renameat2,unlink,unlinkat,close,write")
+                .arg("trace=openat,flock,statx,newfstatat,rename,renameat,renameat2,unlink,unlinkat,close,write,fcntl,dup,dup2,dup3")
                 .arg(&exe);
             cmd
         }
         None => Command::new(&exe),
     };
-    let out = cmd
-        .arg("--c16-child")
+    cmd.arg("--c16-child")
         .arg(dest)
         .arg(seed.to_string())
         .arg(id.to_string())
         .arg(format!("solo:{chunks}:{fate}"))
         .stdin(Stdio::null())
-        .stderr(Stdio::null())
-        .output()
-        .expect("spawn solo child");
+        .stdout(Stdio::piped())
+        .stderr(Stdio::null());
+    std::os::unix::process::CommandExt::process_group(&mut cmd, 0);
+    let child = cmd.spawn().expect("spawn solo child");
+    CHILD_GROUPS.lock().unwrap().push(child.id());
+    let out = child.wait_with_output().expect("solo child output");
     let text = String::from_utf8_lossy(&out.stdout);
     for l in text.lines() {
         let w: Vec<&str> = l.split_whitespace().collect();
@@ -1122,6 +1165,14 @@ fn canonical_trace(text: &str, dest: &Path) -> Vec<String> {
             "write" => {
                 if let Some(f) = fds.get(&first_num()) {
                     out.push(format!("write {f}"));
+                }
+            }
+            "fcntl" | "dup" | "dup2" | "dup3" => {
+                // a second descriptor of one of the three files (e.g. File::try_clone) keeps it open
+                let is_dup = call != "fcntl" || args.contains("F_DUPFD");
+                if let (true, Some(f)) = (is_dup && ret >= 0, fds.get(&first_num()).copied()) {
+                    fds.insert(ret, f);
+                    out.push(format!("dup {f}"));
                 }
             }
             "close" => {
@@ -1371,7 +1422,7 @@ impl Prop for C16 {
     fn case_count(&self, tier: Tier) -> u64 {
         match tier {
             Tier::Quick => 400,
-            Tier::Thorough => 6000,
+            Tier::Thorough => 20000,
         }
     }
     fn fixed_cases(&self, tier: Tier) -> Vec<Case> {
@@ -1389,6 +1440,17 @@ impl Prop for C16 {
             seed += 1;
             seed
         };
+        // creators killed on entry to each system call of the protocol (processes only)
+        let points: &[&str] = if tier == Tier::Quick { &["flock", "openpart", "write2", "rename", "closelock", "unlinklock"] } else { &KILL_POINTS };
+        for (i, p) in points.iter().enumerate() {
+            let d = 1 + i % 2;
+            push(format!("procs-pre-{p}"), round_line("procs", 2 + i % 2, 0, 0, &[], &[2, 1], &format!("{p}x{d}"), 3, "-", next_seed()));
+        }
+        // one creator delayed at a system call while the others run (widens every window of the protocol)
+        let leads: &[&str] = if tier == Tier::Quick { &["rename", "closelock"] } else { &["openpart", "closepart", "rename", "closelock", "unlinklock"] };
+        for p in leads {
+            push(format!("procs-lead-{p}"), round_line("procs", 3, 0, 0, &[], &[2, 3], "-", 2, &format!("{p}:120000"), next_seed()));
+        }
         for mode in ["threads", "procs"] {
             let halt = if mode == "threads" { Fate::Cancel(1) } else { Fate::Kill(1) };
             // everybody succeeds
@@ -1397,7 +1459,8 @@ impl Prop for C16 {
             }
             // failures then success; a long killed/cancelled writer followed by a shorter successful one
             push(format!("{mode}-fail-ok"), round_line(mode, 3, 0, 0, &[Fate::Fail(1)], &[3, 2], "-", 2, "-", next_seed()));
-            push(format!("{mode}-halt-ok"), round_line(mode, 3, 0, 0, &[halt], &[6, 1], "-", 2, "-", next_seed()));
+            let halt5 = if mode == "threads" { Fate::Cancel(5) } else { Fate::Kill(5) };
+            push(format!("{mode}-halt-ok"), round_line(mode, 3, 0, 0, &[halt5], &[6, 1], "-", 2, "-", next_seed()));
             push(format!("{mode}-halt-halt-fail-ok"), round_line(mode, 5, 0, 0, &[halt, halt, Fate::Fail(0)], &[5, 4, 3, 1], "-", 2, "-", next_seed()));
             // everybody fails / is killed: the retry must create the file
             push(format!("{mode}-allfail"), round_line(mode, 3, 0, 0, &[Fate::Fail(1), Fate::Fail(0), Fate::Fail(9)], &[2], "-", 2, "-", next_seed()));
@@ -1410,17 +1473,6 @@ impl Prop for C16 {
         // waiters cancelled while blocked in flock (threads only)
         push("threads-cancel-waiters".into(), round_line("threads", 3, 1, 2, &[], &[3], "-", 2, "-", next_seed()));
         push("threads-fail-cancel-waiters".into(), round_line("threads", 3, 0, 1, &[Fate::Fail(2)], &[3, 2], "-", 2, "-", next_seed()));
-        // creators killed on entry to each system call of the protocol (processes only)
-        let points: &[&str] = if tier == Tier::Quick { &["flock", "openpart", "write2", "rename", "closelock", "unlinklock"] } else { &KILL_POINTS };
-        for (i, p) in points.iter().enumerate() {
-            let d = 1 + i % 2;
-            push(format!("procs-pre-{p}"), round_line("procs", 2 + i % 2, 0, 0, &[], &[2, 1], &format!("{p}x{d}"), 3, "-", next_seed()));
-        }
-        // one creator delayed at a system call while the others run (widens every window of the protocol)
-        let leads: &[&str] = if tier == Tier::Quick { &["rename", "closelock"] } else { &["openpart", "closepart", "rename", "closelock", "unlinklock"] };
-        for p in leads {
-            push(format!("procs-lead-{p}"), round_line("procs", 3, 0, 0, &[], &[2, 3], "-", 2, &format!("{p}:120000"), next_seed()));
-        }
         // (c) the call site
         for (m, f) in [(2usize, 50usize), (6, 400)] {
             push(format!("symindex-{m}"), format!("symindex managers={m} funcs={f} seed={}", next_seed()));
@@ -1475,12 +1527,13 @@ impl Prop for C16 {
     fn execute(&self, ops: &[String], stats: &mut Stats) -> Vec<String> {
         let Some(l) = ops.first() else { return vec!["bad-op".into()] };
         let ws: Vec<&str> = l.split_whitespace().collect();
-        match ws.first().copied() {
-            Some("trace") => run_trace(&ws, stats),
-            Some("round") => run_round(&ws, stats),
-            Some("symindex") => run_symindex(&ws, stats),
-            _ => vec!["bad-op".into()],
+        let _watchdog = Watchdog::start(Duration::from_secs(60));
+        let kills = WATCHDOG_KILLS.load(Ordering::SeqCst);
+        let r = self.execute_case(&ws, stats);
+        if WATCHDOG_KILLS.load(Ordering::SeqCst) != kills {
+            stats.bump("watchdog_kills");
         }
+        r
     }
     fn nontrivial(&self, ops: &[String], out: &[String]) -> bool {
         // a trace with at least the lock/stat prefix, a round with at least two accounted creators, or a symindex run
@@ -1489,6 +1542,18 @@ impl Prop for C16 {
     fn teardown(&self) {
         if let Ok(root) = std::env::var("VERIF_ROOT") {
             let _ = std::fs::remove_dir_all(PathBuf::from(root).join(".work").join("C16").join("tmp"));
+        }
+    }
+}
+
+impl C16 {
+    fn execute_case(&self, ws: &[&str], stats: &mut Stats) -> Vec<String> {
+        let ws = ws.to_vec();
+        match ws.first().copied() {
+            Some("trace") => run_trace(&ws, stats),
+            Some("round") => run_round(&ws, stats),
+            Some("symindex") => run_symindex(&ws, stats),
+            _ => vec!["bad-op".into()],
         }
     }
 }
